@@ -48,7 +48,7 @@ struct verif_cop_ghost {
     int      killed;
     int      closed_in, closed_out;
     int      inproc_called;  /* fell back to in-process vm_ffi_call */
-    uint32_t depth;          /* unused since the decoder carries its depth as a parameter (kept for layout) */
+    uint32_t depth;          /* active recursive frames of deserialize_value_at (C16.deser.depth, ghost statements) */
     /* caller view (C16.call, C15.reqbuf) */
     unsigned req_sent;       /* cop_send(COP_MSG_FFI_REQ) calls */
     int      req_fail;       /* the FFI_REQ send failed */
@@ -266,6 +266,12 @@ __CPROVER_ensures((__CPROVER_return_value != 0 && out->tag == TAG_ARRAY) ==>
 static uint32_t deserialize_value_at(const uint8_t *buf, uint32_t buf_size, NanoValue *out, VmHeap *heap, uint32_t depth)
 /* C16.deser.depth: recursion depth (= C stack use) is bounded whatever the peer sends */
 __CPROVER_requires(depth <= COP_DEPTH_LIMIT)
+#ifdef COP_DEPTH_GHOST
+/* ... and the code's depth parameter really is the number of active frames (ghost counter maintained by two inserted
+   ghost statements around the recursive call): a recursive call that does not pass depth + 1 fails this precondition */
+__CPROVER_requires(__verif_cop.depth == depth)
+__CPROVER_ensures(__verif_cop.depth == __CPROVER_old(__verif_cop.depth))
+#endif
 __CPROVER_requires(VERIF_FRESH(buf, buf_size))
 #ifdef COP_ALLOC_BOUND
 /* every caller hands a received payload: cop_recv_header has checked payload_len <= COP_MAX_PAYLOAD (C16.recv.header) */
@@ -274,7 +280,11 @@ __CPROVER_requires(buf_size <= COP_MAX_PAYLOAD)
 __CPROVER_requires(__CPROVER_POINTER_OFFSET(buf) != 0 || buf_size == 0 || COP_TAG_CLASS(buf[0]) == COP_SAFE_CLASS)
 __CPROVER_requires(VERIF_FRESH(out, sizeof(*out)))
 __CPROVER_requires(VERIF_FRESH(heap, sizeof(*heap)))
+#ifdef COP_DEPTH_GHOST
+__CPROVER_assigns(__CPROVER_object_whole(out), __CPROVER_object_whole(heap), __verif_cop)
+#else
 __CPROVER_assigns(__CPROVER_object_whole(out), __CPROVER_object_whole(heap))
+#endif
 /* 0 (rejected) or a consumed count within the buffer */
 __CPROVER_ensures(__CPROVER_return_value <= buf_size)
 __CPROVER_ensures(__CPROVER_return_value != 0 ==> (__CPROVER_return_value >= 1 && COP_IS_TRANSFERABLE(out->tag)))
